@@ -1,6 +1,8 @@
 package main
 
 import (
+	"os"
+	"encoding/hex"
 	"encoding/binary"
 	"fmt"
 	"net"
@@ -384,6 +386,9 @@ func c01(c *ctx) {
 	// quick: every mutation in the state 'session' (where every handler is reachable), a sixth of them elsewhere
 	sample := func(state string, i int) bool { return c.thorough() || state == "session" || (i+int(c.seed))%6 == 0 }
 	for _, state := range states {
+		if os.Getenv("VERIF_C01_RAWONLY") != "" {
+			break
+		}
 		tpls := c01Templates(net.ParseIP("127.0.0.1"), "x")
 		for ti := range tpls {
 			// the unmutated template, then every single mutation
@@ -417,6 +422,7 @@ func c01(c *ctx) {
 	tp := c01Templates(pr.p.IP, pr.p.Addr)
 	n := c.pick(3000, 300000)
 	rawFailures := 0
+	var since []string // the datagrams since the last answered barrier (hex): the replay of a failing one
 	for i := 0; i < n; i++ {
 		t := tp[c.rng.Intn(len(tp))]
 		dg := datagram(t.msgType, t.hasSEID, pr.seid, pr.p.NextSeq(), t.ies)
@@ -450,8 +456,10 @@ func c01(c *ctx) {
 			}
 		}
 		if err := pr.p.SendRaw(dg); err != nil {
+			since = append(since, "send-error:"+err.Error())
 			continue
 		}
+		since = append(since, kind+":"+hex.EncodeToString(dg))
 		if i%50 == 49 || i == n-1 || len(dg) == 0 {
 			// liveness barrier on the same association; the association may have been released by a mutated datagram
 			_, barrier := pr.p.Exchange(sysh.Marshal(message.NewHeartbeatRequest(pr.p.NextSeq(), ie.NewRecoveryTimeStamp(time.Unix(1700000000, 0)), nil)), w.wait)
@@ -466,6 +474,10 @@ func c01(c *ctx) {
 				}
 			}
 			c.t.Case("c01/raw/"+kind, true, "raw %d => %d %d %s", i, b01(alive), b01(barrier), crash)
+			if !alive || !barrier {
+				c.t.Note("raw-replay i=%d: the datagrams since the last answered barrier, in order: %s", i, strings.Join(since, " "))
+			}
+			since = since[:0]
 			if !alive || !barrier {
 				if rawFailures++; rawFailures >= 4 {
 					break // each is a violation already; the agent is restarted for every one of them
